@@ -29,7 +29,7 @@ func init() {
 	core.Register(&core.Spec{
 		ID:    "C10",
 		Level: "fault_enumeration",
-		Rule: "part 1 (systematic): every rule of the statement (image-or-build; undeclared network / volume / secret / build secret / config; dangling depends_on required, optional-unknown, required-on-profile-disabled; dangling network_mode / ipc / pid `service:`, volumes_from, links; each exclusive pair; each disagreeing pair; external volume + driver / driver_opts / labels; secret and config with 0, 2 or 3 sources) x every spelling variant x every placement of the offending fragment (main file, override file, extended base service in another file, included file) as a pair of cases: the benign twin must load and satisfy the checker, the rule-breaking twin must fail; " +
+		Rule: "part 1 (systematic): every rule of the statement (image-or-build; undeclared network / volume / secret / build secret / config; dangling depends_on required, optional-unknown, required-on-profile-disabled; dangling network_mode / ipc / pid `service:`, volumes_from, links; each exclusive pair; each disagreeing pair; external volume + driver / driver_opts / labels; secret and config with 0, 2 or 3 sources, also beside an `external` key or a driver; one entry of a short depends_on list made optional by a later layer) x every spelling variant x every placement of the offending fragment (main file, override file, extended base service in another file, included file) as a pair of cases: the benign twin must load and satisfy the checker, the rule-breaking twin must fail; " +
 			"part 2: every directed graph on 1..4 services (exhaustive, 4 163 graphs incl. self-dependencies; thorough: plus a sample on 5) rendered as depends_on / links / network_mode edges — cyclic ones must fail, acyclic ones must load and satisfy the checker — the closing edge placed in main / override / extends / include in rotation; " +
 			"part 3 (sampled): models with 2..5 fragment slots, each independently benign or rule-breaking in a random placement: fails iff at least one slot is rule-breaking. " +
 			"Every successful load of the campaign is judged by the invariant checker. A case is non-trivial when the load really ran on a multi-service model and its verdict was decided by the statement; distinct = distinct case inputs.",
